@@ -128,7 +128,8 @@ fire("C03", B, "    constants = FromArgs[ConstantValue](_hash_fn=constant_key)",
 fire("C03", B, "        if sorted(self._i_to_arg) != list(range(len(self._i_to_arg))):", "        if self._i_to_arg and max(self._i_to_arg) < len(self._i_to_arg) - 1:")
 fire("C03", B, "            if self._hash_fn(self._i_to_arg[i]) != self._hash_fn(arg):", "            if self._i_to_arg[i] != arg:", "the original defect")
 silent(["C03", "C06", "C09"], B, "        if sorted(self._i_to_arg) != list(range(len(self._i_to_arg))):", "        if set(self._i_to_arg) != set(range(len(self._i_to_arg))):", "equivalent guard")
-silent(["C03"], B, "        if sorted(self._i_to_arg) != list(range(len(self._i_to_arg))):", "        if self._i_to_arg and max(self._i_to_arg) != len(self._i_to_arg) - 1:", "equivalent guard (keys are distinct)")
+fire("C03", B, "        if sorted(self._i_to_arg) != list(range(len(self._i_to_arg))):", "        if self._i_to_arg and max(self._i_to_arg) != len(self._i_to_arg) - 1:", "NOT equivalent: a negative override hides a gap ({-1, 0, 2}) - this edit was listed as 'silent' until seed C03-13 showed the input")
+silent(["C03"], B, "        if sorted(self._i_to_arg) != list(range(len(self._i_to_arg))):", "        if self._i_to_arg and (min(self._i_to_arg) != 0 or max(self._i_to_arg) != len(self._i_to_arg) - 1):", "equivalent guard (keys are distinct ints)")
 silent(["C03"], B, "return 1 if arg <= 0xFF else 2 if arg <= 0xFFFF else 3 if arg <= 0xFFFFFF else 4", "return 1 if arg < 0x100 else 2 if arg < 0x10000 else 3 if arg < 0x1000000 else 4", "same thresholds")
 # ---- C10
 fire("C10", L, "and prev_item.bytecode_offset >= (254 if is_linetable else 255)", "and prev_item.bytecode_offset >= (255 if is_linetable else 255)")
